@@ -3053,11 +3053,13 @@ XPath::step(
                     }
                 }
             }
+        }
 
-            if (queryResults.empty() == true)
-            {
-                queryResults.setDocumentOrder();
-            }
+        // An empty result is in document order, whether the
+        // following steps found nothing, or this step did...
+        if (queryResults.empty() == true)
+        {
+            queryResults.setDocumentOrder();
         }
     }
     else
